@@ -22,7 +22,7 @@ fn lse(xs: &[f64]) -> f64 {
     m + xs.iter().map(|x| (x - m).exp()).sum::<f64>().ln()
 }
 /// posterior LLRs of the three bits for received r, per-dimension noise sigma, equiprobable unit-energy points
-fn posterior8(r: Complex<f64>, sigma: f64) -> ([f64; 3], f64) {
+pub fn posterior8(r: Complex<f64>, sigma: f64) -> ([f64; 3], f64) {
     let d: Vec<f64> = (0..8).map(|k| { let p = point(k); (r.re * p.re + r.im * p.im) / (sigma * sigma) }).collect();
     let scale = d.iter().map(|x| x.abs()).fold(0.0, f64::max);
     let mut out = [0.0; 3];
